@@ -228,6 +228,11 @@ partial def handleS (payload : String) : String :=
     ";".intercalate (s!"{S.binom n k}" :: s!"{S.sizeHint n k none}" :: items)
   | _ => "bad"
 
+/-- `SB n` → `binom n 0, …, binom n (n+1)` -/
+def handleSB (payload : String) : String :=
+  let n := payload.trimAscii.toString.toNat!
+  ",".intercalate ((List.range (n + 2)).map (fun k => toString (S.binom n k)))
+
 /-! ## T: replay of a scheduler trace of the real `bab::solve` through `Eng3.step?` -/
 namespace TR
 open Eng3
@@ -552,6 +557,32 @@ def handleCE (payload : String) : String :=
         | some r => RSpec.roomOKb I R af r
       s!"file={if fileOk then "ok" else "BAD"} write={if writeOk then "ok" else "BAD"} hard={hard} room={room}"
 
+/-- `CP`: the C18 specification on the possible-rooms field of the import file
+    (`--possible-rooms-field`): `sound=… nonempty=…` -/
+def handleCP (payload : String) : String :=
+  match Json.parse payload with
+  | .error e => s!"bad json {e}"
+  | .ok j =>
+    let doc := untag ((j.getObjVal? "doc").toOption.getD Json.null)
+    let imp := untag ((j.getObjVal? "imp").toOption.getD Json.null)
+    let o := parseOpts ((j.getObjVal? "opts").toOption.getD Json.null)
+    let rooms := (j.getObjValAs? (List Nat) "rooms").toOption.getD []
+    let field := (j.getObjValAs? String "field").toOption.getD ""
+    match CD.read doc o with
+    | .error _ => "read=ERR"
+    | .ok (parts, courses, amb) =>
+      let (_, a, _, _) := decodeImport parts courses amb.trackId imp
+      let (I, R) := instOf parts courses (some rooms)
+      let av := a.toArray
+      let af : Nat → Option Nat := fun p => av.getD p none
+      let sizes := RSpec.sizes I R af
+      let crs := ((imp.get "courses").bind J.asObject).getD []
+      let listed : List (List Nat) := courses.map (fun c =>
+        match (J.lookup (toString c.dbid) crs).bind (fun v => v.get "fields") |>.bind (fun f => f.get field) |>.bind J.asStr with
+        | some s => ((s.splitOn ",").map (fun x => x.trimAscii.toString)).filterMap (fun x => x.toNat?)
+        | none => [])
+      s!"sound={RM.specSound sizes rooms listed} nonempty={RM.specNonempty sizes listed}"
+
 /-- quality figures of a CdE run as exact fractions: `sq=num/den oq=num/den score=…` -/
 def handleCQ (payload : String) : String :=
   match Json.parse payload with
@@ -711,10 +742,12 @@ def dispatch (line : String) : String :=
     | "A" => handleA payload
     | "B" => handleB payload
     | "S" => handleS payload
+    | "SB" => handleSB payload
     | "T" => TR.handle payload
     | "CR" => CDD.handleCR payload
     | "CE" => CDD.handleCE payload
     | "CQ" => CDD.handleCQ payload
+    | "CP" => CDD.handleCP payload
     | "Q" => handleQ payload
     | "L" => handleL payload
     | "RL" => handleRL payload
